@@ -340,11 +340,16 @@ def is_huge(f, b):
 
 
 def single_field_mutations(seed, thorough):
-    """-> [(description, field class, patches, declares a huge value)]"""
-    out = []
+    """-> [(description, field class, patches, declares a huge value)], ordered value-rank first
+    (the k-th value of every field before the (k+1)-th of any), so that a run cut by its time
+    budget has touched every field."""
+    per = []
     for f in seed.fields:
-        for b, label in field_values(seed, f, thorough):
-            out.append(("%s=%s" % (f.name, label), f.cls, [(f.off, b)], is_huge(f, b)))
+        per.append([("%s=%s" % (f.name, label), f.cls, [(f.off, b)], is_huge(f, b))
+                    for b, label in field_values(seed, f, thorough)])
+    out = []
+    for k in range(max(map(len, per))):
+        out += [lst[k] for lst in per if k < len(lst)]
     return out
 
 
